@@ -7,6 +7,7 @@ import (
 	"errors"
 	"fmt"
 	"go/format"
+	"io"
 	"os"
 	"sort"
 	"strings"
@@ -32,6 +33,18 @@ type Op struct {
 	// operation that is executed and later operations reuse it as it is, see MapTable).  The
 	// model is unaffected (maps are values there): Sexp prints an ordinary importnames.
 	MapKey string
+	// WFault (render rcode rplain, optional): the SHAPE of the writer's behaviour (faultWriter).
+	// "" = as before: Flag alone decides (Flag: the first Write returns (0, err)).  Otherwise
+	//   zero-err    the first Write returns (0, err)
+	//   part-err    the first Write takes the first half of p and returns (k, err), 0 < k < len(p)
+	//               (k = 0 when len(p) < 2)
+	//   full-err    the first Write takes all of p and returns (len(p), err)
+	//   short-nil   the first Write takes the first half of p and returns (k, nil) with k < len(p)
+	//               (a writer that breaks the io.Writer contract; plain success when len(p) < 2)
+	//   second-err  the first Write succeeds, the second one returns (0, err)
+	// Flag stays what the model is told (Sexp): true for the shapes whose error reaches a caller
+	// that hands over its output with one Write (zero-err part-err full-err), false for the others.
+	WFault string
 }
 
 // MapTable holds the map objects that importnames operations with a MapKey share.  A World
@@ -139,18 +152,45 @@ type Obs struct {
 	Path    string // save
 	Writes  int    // number of Write calls seen (implementation side)
 	Imports []Import
+	// Offered (implementation side, only for operations with a WFault shape): the argument of
+	// every Write call, whatever the writer then took of it.
+	Offered []string
 }
 
 var errInjected = errors.New("verif: injected write fault")
 
 type faultWriter struct {
-	fail  bool
-	calls int
-	buf   []byte
+	fail    bool
+	shape   string // Op.WFault
+	calls   int
+	buf     []byte   // the bytes the writer took
+	offered []string // shape != "": the argument of every call
 }
 
 func (w *faultWriter) Write(p []byte) (int, error) {
 	w.calls++
+	if w.shape != "" {
+		w.offered = append(w.offered, string(p))
+		switch {
+		case w.shape == "zero-err" && w.calls == 1:
+			return 0, errInjected
+		case w.shape == "part-err" && w.calls == 1:
+			k := len(p) / 2
+			w.buf = append(w.buf, p[:k]...)
+			return k, errInjected
+		case w.shape == "full-err" && w.calls == 1:
+			w.buf = append(w.buf, p...)
+			return len(p), errInjected
+		case w.shape == "short-nil" && w.calls == 1 && len(p) >= 2:
+			k := len(p) / 2
+			w.buf = append(w.buf, p[:k]...)
+			return k, nil
+		case w.shape == "second-err" && w.calls == 2:
+			return 0, errInjected
+		}
+		w.buf = append(w.buf, p...)
+		return len(p), nil
+	}
 	if w.fail && w.calls == 1 {
 		return 0, errInjected
 	}
@@ -162,10 +202,15 @@ const fmtErrMarker = " while formatting source:\n"
 
 func classify(err error, w *faultWriter) Obs {
 	if err == nil {
-		return Obs{Kind: "write", Out: string(w.buf), Writes: w.calls}
+		return Obs{Kind: "write", Out: string(w.buf), Writes: w.calls, Offered: w.offered}
 	}
 	if err == errInjected {
-		return Obs{Kind: "write", Out: "", Failed: true, Writes: w.calls}
+		return Obs{Kind: "write", Out: "", Failed: true, Writes: w.calls, Offered: w.offered}
+	}
+	if w.shape == "short-nil" && err == io.ErrShortWrite {
+		// the writer took less than it was given and said nothing: a caller may notice that itself
+		// and report io.ErrShortWrite (Msg), or not; Out is what the writer took
+		return Obs{Kind: "write", Out: string(w.buf), Writes: w.calls, Offered: w.offered, Msg: "io.ErrShortWrite"}
 	}
 	msg := err.Error()
 	if i := strings.Index(msg, fmtErrMarker); i >= 0 && strings.HasPrefix(msg, "Error ") {
@@ -194,6 +239,10 @@ type World struct {
 	groups   map[*term.Group]*jen.Group // group targets of rcode/rplain (grouptarget.go)
 	// Maps: the map objects shared by importnames operations that carry a MapKey.
 	Maps *MapTable
+	// ReuseAddSlices (default false: as before): fadd hands File.Add a slice that has spare
+	// capacity and overwrites the whole backing array with a marker identifier once Add has
+	// returned - Add appends (copies) its arguments, the slice stays the caller's.
+	ReuseAddSlices bool
 }
 
 func NewWorld() *World {
@@ -253,10 +302,19 @@ func (w *World) Exec(h History) (obs []Obs) {
 			st := op.Code.(*term.Stmt)
 			var codes []jen.Code
 			s := w.B.Stmt(st)
+			if w.ReuseAddSlices {
+				codes = make([]jen.Code, 0, len(*s)+3)
+			}
 			codes = append(codes, []jen.Code(*s)...)
 			f.Add(codes...)
+			if w.ReuseAddSlices {
+				full := codes[:cap(codes)]
+				for i := range full {
+					full[i] = jen.Id("CLOBBERED_BY_THE_CALLER")
+				}
+			}
 		case "render":
-			obs = append(obs, w.guard(func(fw *faultWriter) error { return f.Render(fw) }, op.Flag))
+			obs = append(obs, w.guard(func(fw *faultWriter) error { return f.Render(fw) }, op.Flag, op.WFault))
 		case "rcode":
 			obs = append(obs, w.guard(func(fw *faultWriter) error {
 				switch c := w.target(op.Code).(type) {
@@ -266,7 +324,7 @@ func (w *World) Exec(h History) (obs []Obs) {
 					return c.RenderWithFile(fw, f)
 				}
 				panic("hist: rcode target")
-			}, op.Flag))
+			}, op.Flag, op.WFault))
 		case "rplain":
 			obs = append(obs, w.guard(func(fw *faultWriter) error {
 				switch c := w.target(op.Code).(type) {
@@ -276,7 +334,7 @@ func (w *World) Exec(h History) (obs []Obs) {
 					return c.Render(fw)
 				}
 				panic("hist: rplain target")
-			}, op.Flag))
+			}, op.Flag, op.WFault))
 		case "save":
 			obs = append(obs, w.save(f, op))
 		case "imports":
@@ -316,8 +374,8 @@ func (w *World) target(n term.Node) interface{} {
 	panic(fmt.Sprintf("hist: cannot render a %T directly", n))
 }
 
-func (w *World) guard(run func(fw *faultWriter) error, fail bool) (o Obs) {
-	fw := &faultWriter{fail: fail}
+func (w *World) guard(run func(fw *faultWriter) error, fail bool, shape string) (o Obs) {
+	fw := &faultWriter{fail: fail, shape: shape}
 	defer func() {
 		if r := recover(); r != nil {
 			o = Obs{Kind: "panic", Msg: panicMsg(r), Writes: fw.calls, Out: string(fw.buf)}
